@@ -55,6 +55,8 @@ def gen_world(rng, fmt=None, apdep=None, n_models=(1, 8), n_ap=(1, 5), n_wav=(5,
     w['ext_slope'] = round(rng.uniform(1.0, 2.0), 3)
     # unit in which the package stores its fluxes (per-file: any supported family; cube: a flux density)
     w['flux_unit'] = rng.choice(['mJy', 'mJy', 'Jy', 'ergs/cm^2/s', 'erg/s']) if w['dtype'] == 'f8' else 'mJy'
+    if w['format'] == 2 and w['dtype'] == 'f8':
+        w['flux_unit'] = rng.choice(['mJy', 'Jy'])         # cubes hold flux densities
     w['ext_n'] = rng.choice([3, 8, 40])
     return w
 
@@ -170,12 +172,19 @@ class World(object):
         return e
 
     # -- disk -----------------------------------------------------------------------------------
-    def write(self, d, fmt=None, perm=None, gz=None):
+    def write(self, d, fmt=None, perm=None, gz=None, keep_convolved=False):
         spec = self.spec
         fmt = fmt or spec['format']
         gz = spec['gz'] if gz is None else gz
+        aside = None
+        if keep_convolved and os.path.isdir(os.path.join(d, 'convolved')):
+            aside = d.rstrip('/') + '.convolved-aside'
+            shutil.rmtree(aside, ignore_errors=True)
+            shutil.move(os.path.join(d, 'convolved'), aside)
         shutil.rmtree(d, ignore_errors=True)
         os.makedirs(d)
+        if aside is not None:
+            shutil.move(aside, os.path.join(d, 'convolved'))
         ext = '.fits.gz' if gz else '.fits'
         if fmt == 1:
             os.makedirs(os.path.join(d, 'seds'))
@@ -305,6 +314,16 @@ def prelude_spec(spec, rng):
     p['ext_slope'] = round(rng.uniform(1.0, 2.0), 3)
     p['mixed'] = None
     return p
+
+
+def gzip_convolved(d):
+    """The previous occupant shipped its convolved files compressed: <F>.fits -> <F>.fits.gz"""
+    import glob
+    import gzip
+    for p in glob.glob(os.path.join(d, 'convolved', '*.fits')):
+        with open(p, 'rb') as f, gzip.open(p + '.gz', 'wb') as g:
+            g.write(f.read())
+        os.remove(p)
 
 
 # ---------------------------------------------------------------------------------------------
